@@ -22,4 +22,6 @@ for mf in sorted(glob.glob("/verif/seeded/*/meta.json")):
     print("%-50s %s" % (m["seed"], " ".join(res)))
     sys.stdout.flush()
     subprocess.run(["git", "-C", "/repo", "reset", "-q", "--hard", "HEAD"], check=True)
+subprocess.run(["git", "-C", "/verif", "checkout", "-q", "--", "evidence"])  # evidence written while /repo was patched is not kept
+subprocess.run(["python3", "/verif/tools/gen_consts.py"], stdout=subprocess.DEVNULL)
 sys.exit(1 if bad else 0)
